@@ -1612,6 +1612,15 @@ def run(tier: str, seed: int, replay: str | None = None) -> int:
     ev_pt, bad_pt, fail_pt = micro_pagetree(ford, drv, random.Random(seed * 15485863 + 3), 80 if tier == "quick" else 3000, rep, pt_hist)
     ev_micro += ev_pt
     bad_micro += bad_pt
+    # directory names as user input: fnmatch, the refusal and the source search on names with pattern characters
+    from . import c19_names as names
+    nq = tier == "quick"
+    ev_fn, bad_fn, fn_hist = names.micro_fnmatch(ford, drv, random.Random(seed * 611953 + 11), 1500 if nq else 30000, rep)
+    ev_rf, bad_rf, fail_rf, rf_hist = names.micro_refusal(ford, drv, random.Random(seed * 32452843 + 13), 250 if nq else 5000, rep)
+    ev_sr, bad_sr, fail_sr, sr_hist = names.micro_sources(ford, drv, random.Random(seed * 49979687 + 17), 60 if nq else 1500, rep,
+                                                          bool(tables.get("excludeOutputByPath", False)))
+    ev_micro += ev_fn + ev_rf + ev_sr
+    bad_micro += bad_fn + bad_rf + bad_sr
 
     if replay:
         data = json.loads(Path(replay).read_text())
@@ -1648,6 +1657,7 @@ def run(tier: str, seed: int, replay: str | None = None) -> int:
                      "media": 1, "css": True, "mathjax": 1, "favicon": True,
                      "pages": rrng.choice(["simple", "collide", "dotdot_inside"]), "pre_out": "absent",
                      "srcset": rrng.choice([0, 2]), "links": 0}
+            sweep["deco"] = rrng.choice(NAME_DECOS)
             sr = run_scenario(sweep, base, tables)
             runs.append(sr)
             if sr["res"]["exc"] is None:
@@ -1690,7 +1700,7 @@ def run(tier: str, seed: int, replay: str | None = None) -> int:
         fault_runs = []
         cands = [r for r in runs if not r["scn"].get("regen") and r["scn"]["out"] not in REFUSING and r["res"]["exc"] is None]
         cands.sort(key=lambda r: -len(r["rec"].events))
-        budget_s = 20 if tier == "quick" else 900
+        budget_s = 15 if tier == "quick" else 900
         t_f = time.time()
         picks = cands[:1] + [c for c in cands if c["scn"]["pages"] in ("escape", "simple")][:2] if cands else []
         seen_ids = set()
@@ -1849,7 +1859,9 @@ def run(tier: str, seed: int, replay: str | None = None) -> int:
         samples=samples,
         traces_validated_against_impl=n_runs + n_fault_runs + ev_micro,
         correspondence_disagreements=n_corr_bad + bad_micro,
-        oracle_failures=n_oracle_fail + fail_guard + fail_pt,
+        oracle_failures=n_oracle_fail + fail_guard + fail_pt + fail_rf + fail_sr,
+        names_micro={"fnmatch": {"cases": ev_fn, "histogram": fn_hist}, "refusal": {"cases": ev_rf, "histogram": rf_hist},
+                     "sources": {"cases": ev_sr, "histogram": sr_hist}},
         guard_micro_cases=ev_guard,
         pagetree_micro_cases=ev_pt, pagetree_micro_histogram=pt_hist,
         scenario_runs=n_runs, fault_injection_runs=n_fault_runs,
